@@ -234,6 +234,18 @@ def r4(ctx):
                 o2 = origin(xb, o["t"]["args"][0])
                 if o2.get("k") == "call" and o2["t"]["f"].endswith("WriteHalf::seq"):
                     out += [e for v, e in m.items() if v == "Break"]
+            if adt == "std::option::Option" and not pl.get("p") and ("None" in m or "Some" in m):
+                # `let fin_seq = if self.is_shutdown { None } else { self.seq(world).ok() }; if let Some(seq) = fin_seq { send }`:
+                # on the paths that asked for a sequence number, None is the Err of WriteHalf::seq
+                l = pl["l"]
+                d1 = xb.defs().get(l, [])
+                if len(d1) == 1 and d1[0][1] != "term" and d1[0][2]["r"]["k"] == "use" and op_place(d1[0][2]["r"]["o"]) and not op_place(d1[0][2]["r"]["o"]).get("p"):
+                    l = op_place(d1[0][2]["r"]["o"])["l"]
+                for dd in xb.defs().get(l, []):
+                    if dd[1] == "term" and dd[2]["k"] == "call" and dd[2]["f"].endswith("Result::ok"):
+                        o3 = origin(xb, dd[2]["args"][0])
+                        if o3.get("k") == "call" and o3["t"]["f"].endswith("WriteHalf::seq"):
+                            out.append(m.get("None") or els)
         return out
 
     def fin_wrappers():
